@@ -3,8 +3,9 @@ CONSTANTS MaxSteps = 6
           FreeSteps = 6
           Scope = "thorough"
           Caller = TRUE
-          Edits = FALSE
-          Pairs = "no"
+          Edits = TRUE
+          Pairs = "also"
           Extend = FALSE
+          Mech = FALSE
 INIT Init
-NEXT NextGen
+NEXT NextGenE
